@@ -528,3 +528,20 @@ _ADDED2 = {'C02': " Rounds 4-5: actions 'burst' (several pacer releases back to 
     'C19': " Rounds 4-5: rate periods from the duration grammar (fractions without integer part etc.), -proxy-header next to -header; C19.resolverscmd: a loopback DNS server is the only one that knows the target's name, for every -dns-ttl.", 'C20': ' Rounds 4-5: scrapes through the HTTP handler between observations; 50 000..200 000 results waiting in the channel when the pump starts.'}
 for _k, _v in _ADDED2.items():
     PROPS[_k]["rule"] += _v
+
+_ADDED3 = {'C01': ' Round 6: linear ramps starting at up to 2e7 hits/s with slopes down to 1e-7.',
+    'C02': ' Round 6: targeter failures of nine kinds, responses arriving in two parts, Stop during a pacer wait; twoattacks with a gated transport and a late second attack; dialpath with a server dropping kept-alive requests.',
+    'C03': " Round 6: 'completehead' (no result on offer before the body has been read to its end), twoattacks (per-attack in-flight bound).", 'C04': " Round 6: C04 runs the C02 histories and twoattacks for its own clauses ('waitstop': Stop during an hour's wait releases nothing; per-attack pacer arguments).", 'C05': ' Round 6: followed redirects against the real transport (latency >= server time of all hops); twoattacks (per-attack seq/timestamp order).',
+    'C08': ' Round 6: C08.interleaved (two streams open at once), long single header values in the size ladder.',
+    'C09': ' Round 6: a longer output of an earlier run at the output path, 16 MiB rung in the quick tier.',
+    'C11': " Round 6: arrival orders 'alternate'/'zigzag' in large cases, one HDR reporter rendered at every intermediate Close.", 'C12': ' Round 6: evenly spaced bounds, repeated -buckets flags.',
+    'C13': ' Round 6: inputs read through a named pipe, seekable inputs behind a consumed prefix.',
+    'C14': ' Round 6: targets sharing one rewritten @file, one Target variable reused for every draw (http format).',
+    'C15': ' Round 6: sources returning the last chunk with io.EOF, one Target variable per goroutine with copies kept.',
+    'C16': ' Round 6: other white space after the method; C16.commentruns: millions of comment lines under a 48 MB goroutine stack limit.',
+    'C17': ' Round 6: series of more than 2^20 points.',
+    'C18': ' Round 6: C18.sharedoption (one ConnectTo value, several attackers), C18.refresh with a name that stops resolving.',
+    'C19': ' Round 6: -connect-to with -keepalive=false end to end, zero-padded and prefixed rate numerals.',
+    'C20': ' Round 6: C20.aging (hours of virtual time between batches, go1.26.8 bubble), thousands of distinct label sets.'}
+for _k, _v in _ADDED3.items():
+    PROPS[_k]["rule"] += _v
